@@ -312,7 +312,7 @@ PROPS = {
         "assumptions": COMMON_ASSUMPTIONS + ["in the storage legs the space-storage shell, the ACL (only logged) and the deletion state (a set) are stubs; head updates reach the DiffManager synchronously (the real head updater queue is exercised by the C15 engine)"],
         "technique": "deterministic simulation: seeded operation histories with restart-as-operation, differential oracle against a freshly rebuilt index after every step",
         "level_text": "Seeded exploration of operation histories with a differential oracle (live index vs freshly filled index vs second history) evaluated after every operation.",
-        "level_note": "ldiff is real; reference = the same code filled in one call (the property's own definition of history independence)",
+        "level_note": "ldiff is real; reference = the same code filled in one call (the property's own definition of history independence); storage legs: headsync.DiffManager, headstorage, statestorage, key-value innerstorage and any-store/SQLite are real, stubs are the space-storage shell, the ACL (only logged) and the deletion state (a set)",
     },
     "C17": {
         "engine": "tasksim",
